@@ -96,3 +96,48 @@ def is_some_false_targets(fn, cfg):
                 if vals == ["1"] and len(tg) == 2:
                     out.append((tg[1], local_root(fn, t["args"][0])))
     return out
+
+
+# ------------------------------------------------------------------ API functions with private helpers inlined
+from sa import inline as _inline
+
+
+def is_private_dom_fn(f):
+    return f.crate == "rbx_dom_weak" and f.path.startswith(DOM) and f.dk != "Closure" and not (f.d.get("vis") or "").startswith("Public")
+
+
+_API_CACHE = {}
+
+
+def api_fns(prog):
+    """{path: InlinedFn} — the public functions of rbx_dom_weak::dom (and trait impl methods there), each with the
+    module's private helpers (inner_insert, inner_remove, nested fns, ...) spliced into its MIR CFG."""
+    key = id(prog)
+    if key in _API_CACHE:
+        return _API_CACHE[key]
+    out = {}
+    for path, f in sorted(prog.fns.items()):
+        if f.crate != "rbx_dom_weak" or not f.mir or f.dk == "Closure":
+            continue
+        if not (path.startswith(DOM) or path.startswith("<" + DOM)):
+            continue
+        if "::test::" in path or "::tests::" in path:
+            continue
+        if is_private_dom_fn(f):
+            continue
+        out[path] = _inline.inline(prog, f, is_private_dom_fn)
+    _API_CACHE.clear()
+    _API_CACHE[key] = out
+    return out
+
+
+def mutation_blocks(fn, field, op_regex):
+    """blocks of fn whose call terminator performs a mutation of `field` matching op_regex (by span identity
+    with sa.discipline.field_mutations)"""
+    rx = re.compile(op_regex)
+    sps = {m["sp"] for m in D.field_mutations(fn) if m["field"] == field and m["how"].startswith("call:") and rx.search(m["how"])}
+    return {i for i, cal, gen, t in D.mir_calls(fn) if t.get("sp") in sps and cal and rx.search(cal)}
+
+
+def short_api(path):
+    return path.replace(DOM, "")
